@@ -711,12 +711,13 @@ func (e *ConcatExpression) Evaluate(ctx *Context, input system.Collection) (syst
 		return nil, err
 	}
 
-	// Convert empty collection to empty string
+	// Convert empty collection to empty string. A fresh collection is built: appending to the
+	// operand would write into the caller's backing array when it has spare capacity.
 	if len(leftResult) == 0 {
-		leftResult = append(leftResult, system.String(""))
+		leftResult = system.Collection{system.String("")}
 	}
 	if len(rightResult) == 0 {
-		rightResult = append(rightResult, system.String(""))
+		rightResult = system.Collection{system.String("")}
 	}
 
 	if len(leftResult) > 1 || len(rightResult) > 1 {
